@@ -214,6 +214,7 @@ def part_exits(ctx, pairs, cfgs, per_type_cfgs):
             exp = bytes.fromhex(m["expected"])
             detail = {"source": src, "config": cfg.name, "exit": m["exit"], "type": A.eth_ty(t), "value": repr(v),
                       "expected_canonical": m["expected"], "observed": m["observed"], "where": diff_pos(obs, exp),
+                      "calldata": m["calldata"],
                       "how": "deploy source under config; deploy echo callee (runtime 366000600037366000a000) for ext*; "
                              "call the function named by `exit` with the canonical encoding of value; compare bytes"}
             args_t = ("tuple", (t,)) if m["exit"] == "extcall_calldata" else ("tuple", (t, X.B5))
@@ -268,7 +269,8 @@ def part_reasons(ctx, cfgs):
         for m in res["mismatch"]:
             report(ctx, "failing-input", f"{m['exit']}: revert payload differs from Error(string) canonical encoding",
                    {"source": src, "config": cfg.name, "exit": m["exit"], "reason": repr(cases[m["case"]][2]),
-                    "expected_canonical": m["expected"], "observed": m["observed"]}, "reason:" + m["exit"])
+                    "expected_canonical": m["expected"], "observed": m["observed"], "calldata": m["calldata"]},
+                   "reason:" + m["exit"])
     return n
 
 
@@ -311,16 +313,26 @@ def part_zero_pad_template(ctx):
 
 # ------------------------------------------------------------------ replay
 def do_replay(ctx):
+    """re-execute exactly the recorded case on the current /repo tree and report whether it still fails"""
     rec = json.loads(open(ctx.replay).read())
     d = rec["detail"]
-    ctx.log("replay", rec["name"])
-    if "source" in d and "config" in d and "exit" in d:
-        from vlib.configs import compile_src
-        from vlib.evm import Chain, log_tuple
-        cfg = cfg_by_name(d["config"])
-        c = compile_src(d["source"], cfg, formats=("bytecode", "method_identifiers"))
-        ctx.log("compiled under", cfg.name, "; expected", d.get("expected_canonical", "")[:120], "observed", str(d.get("observed"))[:120])
-    print(json.dumps(rec, indent=1)[:4000])
+    ctx.log("replay:", rec["kind"], "-", rec["name"])
+    if not all(k in d for k in ("source", "config", "exit", "calldata", "expected_canonical")):
+        ctx.log("this record has no executable case (kind=%s); detail:" % rec["kind"])
+        print(json.dumps(d, indent=1, default=str)[:3000])
+        return
+    got = X.replay_one(d["source"], cfg_by_name(d["config"]), bytes.fromhex(d["calldata"]), d["exit"])
+    exp = bytes.fromhex(d["expected_canonical"])
+    ctx.log("config", d["config"], "exit", d["exit"], "type", d.get("type"), "value", d.get("value", d.get("reason")))
+    ctx.log("expected canonical:", exp.hex())
+    ctx.log("observed now      :", None if got is None else got.hex())
+    ctx.corr["evaluations"] = 1
+    ctx.corr["distinct_nontrivial"] = 1
+    if got != exp:
+        ctx.violation("failing-input", "replayed case still differs from the canonical encoding: " + rec["name"],
+                      dict(d, observed=None if got is None else got.hex(), where=diff_pos(got, exp)), key=rec.get("key"))
+    else:
+        ctx.log("replayed case now matches the canonical encoding")
 
 
 # ------------------------------------------------------------------ main
